@@ -92,7 +92,8 @@ def generate(seed, idx, tier):
            'weight_decay': pick(rng, [0.0, 0.01]),
            'normalize_grads': rng.random() < 0.3}
     tree = ds_gen.gen_tree(rng, allow_rank0=False)
-    plan = {'system': 'sm3', 'x64': False, 'config': cfg, 'tree': tree,
+    plan = {'system': 'sm3', 'x64': rng.random() < 0.35, 'config': cfg,
+            'tree': tree,
             'mode': 'eager' if family.endswith('eager') else 'jit',
             'lr': ds_gen.gen_lr(rng)}
     n_leaves, sched = len(tree), {}
@@ -120,6 +121,9 @@ def generate(seed, idx, tier):
   kinds = ['zero', 'big', 'tiny', 'subnormal'] if family == 'ds_fd' else None
   ops = common.gen_history(rng, sched, n_leaves, T, rate, fault_kinds=kinds,
                            restores=False, rejit=False)
+  if rng.random() < 0.3:
+    plan['lr'] = {'kind': 'optax_linear', 'v': pick(rng, [0.5, 0.1]),
+                  'T': pick(rng, [8, 16])}
   plan.update({'class': family, 'param_seed': rng.randrange(1000), 'ops': ops,
                'params_follow': rng.random() < 0.5,
                'numpy_restore': plan.get('mode') == 'eager' and rng.random() < 0.5,
